@@ -1467,6 +1467,9 @@ class Engine(object):
             return PList(self.yields.val if isinstance(self.yields.val, (SSeq, FoldAbs)) else list(self.yields.val))
         if frame.has(name):
             return frame.lookup(name)
+        if name == '__debug__':
+            # how the interpreter was started (-O) is not something a contract may depend on: an arbitrary boolean
+            return SBool(z3.Const('interpreter_debug_flag', z3.BoolSort()))
         if name in self.c.env:
             return self.c.env[name]
         if hasattr(self.module, name):
